@@ -207,6 +207,7 @@ impl<'a, F: Float, K: 'a + Permutable<F>> SolverState<'a, F, K> {
         self.active_set.swap(i, j);
         self.kernel.swap_indices(i, j);
         self.targets.swap(i, j);
+        self.bounds.swap(i, j);
     }
 
     /// Reconstruct gradients from inactivate variables
@@ -231,7 +232,7 @@ impl<'a, F: Float, K: 'a + Permutable<F>> SolverState<'a, F, K> {
             for i in self.nactive()..self.ntotal() {
                 let dist_i = self.kernel.distances(i, self.nactive());
                 for j in 0..self.nactive() {
-                    if self.alpha[i].free_floating() {
+                    if self.alpha[j].free_floating() {
                         self.gradient[i] += self.alpha[j].val() * dist_i[j];
                     }
                 }
@@ -261,6 +262,10 @@ impl<'a, F: Float, K: 'a + Permutable<F>> SolverState<'a, F, K> {
 
         let old_alpha_i = self.alpha[i].val();
         let old_alpha_j = self.alpha[j].val();
+
+        // bound status before the update (decides below whether the cached gradient changes)
+        let ui = self.alpha[i].reached_upper();
+        let uj = self.alpha[j].reached_upper();
 
         if self.targets[i] != self.targets[j] {
             let mut quad_coef = self.kernel.self_distance(i)
@@ -353,9 +358,6 @@ impl<'a, F: Float, K: 'a + Permutable<F>> SolverState<'a, F, K> {
         }
 
         // update alpha status and gradient bar
-        let ui = self.alpha[i].reached_upper();
-        let uj = self.alpha[j].reached_upper();
-
         self.alpha[i] = Alpha::from(self.alpha[i].val(), self.bound(i));
         self.alpha[j] = Alpha::from(self.alpha[j].val(), self.bound(j));
 
@@ -379,11 +381,11 @@ impl<'a, F: Float, K: 'a + Permutable<F>> SolverState<'a, F, K> {
             let dist_j = self.kernel.distances(j, self.ntotal());
             let bound_j = self.bound(j);
             if uj {
-                for k in 0..self.nactive() {
+                for k in 0..self.ntotal() {
                     self.gradient_fixed[k] -= bound_j * dist_j[k];
                 }
             } else {
-                for k in 0..self.nactive() {
+                for k in 0..self.ntotal() {
                     self.gradient_fixed[k] += bound_j * dist_j[k];
                 }
             }
@@ -662,7 +664,9 @@ impl<'a, F: Float, K: 'a + Permutable<F>> SolverState<'a, F, K> {
         }
 
         // swap items until working set is homogeneous
-        for i in 0..self.nactive() {
+        // the active set shrinks while it is scanned
+        let mut i = 0;
+        while i < self.nactive() {
             if self.should_shrunk(i, gmax1, gmax2) {
                 self.nactive -= 1;
                 // only consider items behing this one
@@ -674,6 +678,7 @@ impl<'a, F: Float, K: 'a + Permutable<F>> SolverState<'a, F, K> {
                     self.nactive -= 1;
                 }
             }
+            i += 1;
         }
     }
 
@@ -690,7 +695,9 @@ impl<'a, F: Float, K: 'a + Permutable<F>> SolverState<'a, F, K> {
         }
 
         // swap items until working set is homogeneous
-        for i in 0..self.nactive() {
+        // the active set shrinks while it is scanned
+        let mut i = 0;
+        while i < self.nactive() {
             if self.should_shrunk_nu(i, gmax1, gmax2, gmax3, gmax4) {
                 self.nactive -= 1;
                 // only consider items behing this one
@@ -702,6 +709,7 @@ impl<'a, F: Float, K: 'a + Permutable<F>> SolverState<'a, F, K> {
                     self.nactive -= 1;
                 }
             }
+            i += 1;
         }
     }
 
@@ -812,6 +820,7 @@ impl<'a, F: Float, K: 'a + Permutable<F>> SolverState<'a, F, K> {
             let (mut i, mut j, is_optimal) = self.select_working_set();
             if is_optimal {
                 self.reconstruct_gradient();
+                self.nactive = self.ntotal();
                 let (i2, j2, is_optimal) = self.select_working_set();
                 if is_optimal {
                     break;
@@ -854,10 +863,13 @@ impl<'a, F: Float, K: 'a + Permutable<F>> SolverState<'a, F, K> {
             ExitReason::ReachedThreshold
         };
 
-        // put back the solution
-        let mut alpha: Vec<F> = (0..self.ntotal())
-            .map(|i| self.alpha[self.active_set[i]].val())
-            .collect();
+        // put back the solution: position `i` holds the variable `active_set[i]`
+        let mut alpha = vec![F::zero(); self.ntotal()];
+        let mut targets = vec![false; self.ntotal()];
+        for i in 0..self.ntotal() {
+            alpha[self.active_set[i]] = self.alpha[i].val();
+            targets[self.active_set[i]] = self.targets[i];
+        }
 
         // If we are solving a regresssion problem the number of alpha values
         // computed by the solver are 2*(#samples). The final weights of each sample
@@ -887,7 +899,8 @@ impl<'a, F: Float, K: 'a + Permutable<F>> SolverState<'a, F, K> {
             let mut tmp = Array1::zeros(self.dataset.len_of(Axis(1)));
 
             for (i, elm) in self.dataset.outer_iter().enumerate() {
-                tmp.scaled_add(self.target(i) * alpha[i], &elm);
+                let target_i = if targets[i] { F::one() } else { -F::one() };
+                tmp.scaled_add(target_i * alpha[i], &elm);
             }
 
             SeparatingHyperplane::Linear(tmp)
